@@ -297,7 +297,7 @@ func (g *Gen) ret(sig *[]string) benc.Dict {
 }
 
 func (g *Gen) errVal(sig *[]string) any {
-	k := g.R.Intn(9)
+	k := g.R.Intn(12)
 	*sig = append(*sig, "e#"+strconv.Itoa(k))
 	switch k {
 	case 0:
@@ -317,7 +317,12 @@ func (g *Gen) errVal(sig *[]string) any {
 	case 7:
 		return benc.List{int64(1), "a", "b", benc.List{}}
 	}
-	return benc.List{benc.List{}, benc.Dict{}}
+	// any arity 0..4, every element of any type
+	l := benc.List{}
+	for i := 0; i < g.R.Intn(5); i++ {
+		l = append(l, gen.Pick(g.R, []any{int64(201), int64(-1), "msg", "", benc.List{}, benc.List{int64(1)}, benc.Dict{}, benc.Dict{"a": "b"}}))
+	}
+	return l
 }
 
 // Structured returns a KRPC-shaped dictionary. kind: "q", "r", "e" or "" for any.
